@@ -58,24 +58,24 @@ Print Assumptions C14_float.
 (* "Is a valid numeric literal", against the lexer model of the syntax area (Syntax/Lexer.v, the
    model that C10 ties to the real tokenizer; any Unicode identifier classes in which digits are
    not identifier starts): the displayed text of a literal is an optional '-' followed by a text
-   that scan_single_token reads as exactly ONE Number token with that very lexeme and nothing
-   left over; the same for the digits of an integer. *)
+   that scan_single_token reads — in any lexer state (interpolation scope stack, previous token) —
+   as exactly ONE Number token with that very lexeme and nothing left over; the same for the digits of an integer. *)
 Theorem C14_literal_is_number_token : forall (xid_start xid_continue : N -> bool),
   (forall c, is_ascii_digit c = true -> xid_start c = false) ->
-  forall l d, wf_lit l ->
+  forall l (d : list bool) (la : option token), wf_lit l ->
     show_lit true l
     = ((if l_neg l then String "-"%char EmptyString else EmptyString) ++ show_lit true (unsigned l))%string /\
-    scan_single_token xid_start xid_continue d (codes (show_lit true (unsigned l)))
+    scan_single_token xid_start xid_continue d la (codes (show_lit true (unsigned l)))
     = LOk (Some (TNumber (codes (show_lit true (unsigned l)))), [], d).
 Proof.
-  intros xs xc H l d W. split; [apply show_lit_sign|apply (literal_is_one_number_token xs xc H); assumption].
+  intros xs xc H l d la W. split; [apply show_lit_sign|apply (literal_is_one_number_token xs xc H); assumption].
 Qed.
 Print Assumptions C14_literal_is_number_token.
 
 Theorem C14_integer_is_number_token : forall (xid_start xid_continue : N -> bool),
   (forall c, is_ascii_digit c = true -> xid_start c = false) ->
-  forall (n : N) d,
-    scan_single_token xid_start xid_continue d (codes (show_digits (dec_digits n)))
+  forall (n : N) (d : list bool) (la : option token),
+    scan_single_token xid_start xid_continue d la (codes (show_digits (dec_digits n)))
     = LOk (Some (TNumber (codes (show_digits (dec_digits n)))), [], d).
 Proof. intros xs xc H. exact (integer_is_one_number_token xs xc H). Qed.
 Print Assumptions C14_integer_is_number_token.
